@@ -409,6 +409,11 @@ func (tx *zzTx) Exec(ctx context.Context, sql string, args ...any) (pgconn.Comma
 	if zzFault("exec:" + st.kind + ":" + st.table) {
 		return pgconn.CommandTag{}, zzErrFault
 	}
+	if st.kind == "delete" && st.table == "shovel.task_updates" && zzHasTok(sql, "row_number") {
+		tx.pruneCursorRows(sql, args)
+		zzvrf.Event("PRUNE shovel.task_updates")
+		return pgconn.CommandTag{}, nil
+	}
 	switch st.kind {
 	case "insert":
 		if st.table != "shovel.task_updates" {
@@ -638,4 +643,142 @@ func (tx *zzTx) QueryRow(ctx context.Context, sql string, args ...any) pgx.Row {
 		return zzRowRes{err: pgx.ErrNoRows}
 	}
 	panic("unmodelled query: " + sql)
+}
+
+func zzHasTok(sql, w string) bool {
+	for _, t := range zzTokens(sql) {
+		if t == w {
+			return true
+		}
+	}
+	return false
+}
+
+// pruneCursorRows models
+//   delete from shovel.task_updates where (<outer cols>) not in (
+//     select ... from (select ..., row_number() over(partition by <P> order by num <dir>) as rn
+//       from shovel.task_updates) as s where rn <op> $k)
+// The outer tuple columns, the partition columns, the order direction and the
+// rn comparison are read from the statement text.
+func (tx *zzTx) pruneCursorRows(sql string, args []any) {
+	t := zzTokens(sql)
+	idx := func(w string, from int) int {
+		for i := from; i < len(t); i++ {
+			if t[i] == w {
+				return i
+			}
+		}
+		return -1
+	}
+	// outer tuple: "where ( a , b , c ) not in"
+	w := idx("where", 0)
+	if w < 0 || t[w+1] != "(" {
+		panic("unmodelled prune statement: " + sql)
+	}
+	var outer []string
+	i := w + 2
+	for ; t[i] != ")"; i++ {
+		if t[i] != "," {
+			outer = append(outer, t[i])
+		}
+	}
+	if t[i+1] != "not" || t[i+2] != "in" {
+		panic("unmodelled prune statement: " + sql)
+	}
+	// partition by ... order by num dir
+	pb := idx("partition", 0)
+	if pb < 0 || t[pb+1] != "by" {
+		panic("unmodelled prune statement: " + sql)
+	}
+	var part []string
+	j := pb + 2
+	for ; t[j] != "order"; j++ {
+		if t[j] != "," {
+			part = append(part, t[j])
+		}
+	}
+	if t[j+1] != "by" || t[j+2] != "num" {
+		panic("unmodelled prune statement: " + sql)
+	}
+	desc := t[j+3] == "desc"
+	// where rn <op> $k  (the last "rn")
+	rn := -1
+	for k := range t {
+		if t[k] == "rn" {
+			rn = k
+		}
+	}
+	if rn < 0 || !zzIsOp(t[rn+1][0]) {
+		panic("unmodelled prune statement: " + sql)
+	}
+	op := t[rn+1]
+	lim, ok := zzU64(args[zzArgNum(t[rn+2])-1])
+	if !ok {
+		panic("unmodelled prune argument")
+	}
+	type ent struct {
+		pi, ci int
+	}
+	var all []ent
+	for pi := range tx.db.pairs {
+		for ci := range tx.db.pairs[pi].cur {
+			all = append(all, ent{pi, ci})
+		}
+	}
+	colEq := func(cols []string, a, b ent) bool {
+		pa, pb := &tx.db.pairs[a.pi], &tx.db.pairs[b.pi]
+		for _, c := range cols {
+			switch c {
+			case "src_name":
+				if pa.src != pb.src {
+					return false
+				}
+			case "ig_name":
+				if pa.ig != pb.ig {
+					return false
+				}
+			case "num":
+				if pa.cur[a.ci].num != pb.cur[b.ci].num {
+					return false
+				}
+			default:
+				panic("unmodelled prune column " + c)
+			}
+		}
+		return true
+	}
+	// rn of an entry = 1 + number of entries of its partition that come before it
+	kept := make([]bool, len(all))
+	for x, a := range all {
+		var before uint64
+		na := tx.db.pairs[a.pi].cur[a.ci].num
+		for y, b := range all {
+			if x == y || !colEq(part, a, b) {
+				continue
+			}
+			nb := tx.db.pairs[b.pi].cur[b.ci].num
+			if (desc && nb > na) || (!desc && nb < na) || (nb == na && y < x) {
+				before++
+			}
+		}
+		kept[x] = zzCmp(op, before+1, lim)
+	}
+	// a row survives iff its outer tuple equals the outer tuple of some kept row
+	survive := make([]bool, len(all))
+	for x, a := range all {
+		for y, b := range all {
+			if kept[y] && colEq(outer, a, b) {
+				survive[x] = true
+			}
+		}
+	}
+	for pi := range tx.db.pairs {
+		var keep []zzCur
+		for x, a := range all {
+			if a.pi == pi && survive[x] {
+				keep = append(keep, tx.db.pairs[pi].cur[a.ci])
+			}
+		}
+		tx.db.pairs[pi].cur = keep
+	}
 }
